@@ -20,7 +20,9 @@ obs (digests instead of hex; the read-back lists as count + SHA-256 of their can
   D gfile len=<bytes> sha256=<..>          D cfile len=<bytes> sha256=<..>
   D tedges n=<k> sha256=<..> first=<..> last=<..>     (or `D tedges ERR` when the loader panicked)
   D wedges n=<k> sha256=<..> first=<..> last=<..>
-  D coords n=<k> sha256=<..> first=<..> last=<..>
+  F coords n=<k> sha256=<..> first=<..> last=<..>     (F: the float path is fixed only up to the tolerance; also F cfile)
+  D coordcheck n=<k> within=<0|1> readback=<0|1>     every stored value within one unit (1e-6 degree) of the exact value
+                                                     10*lat_i / 10*lon_i (harness, integer arithmetic); read-back = decoded file
 
 Model (M lines): the text of every line is produced here, sent through the model's glue (`mkLineC`) and the
 model's per-line parsers (`metisLine`, `metisCoords`) and the model's element encoders, streamed into a
@@ -94,9 +96,16 @@ def finish (count : Nat) (body : ByteArray) : ByteArray := (pushBytes ByteArray.
 
 def fileLine (name : String) (b : ByteArray) : String := s!"D {name} len={b.size} sha256={Sha256.hash b}"
 
+/-- METIS coordinates go through floating point: the property fixes them only to within one millionth of a degree,
+    so the digests of the coordinate file and of its read-back are class F (free); what IS determined - the number
+    of coordinates, every stored value within one unit of the exact value, the read-back equal to the decoded file -
+    is computed by the harness in exact integer arithmetic and reported on the `D coordcheck` line -/
+def toF (l : String) : String := "F" ++ (l.drop 1).toString
+
 def Out.lines (o : Out) : Array String :=
-  #["D rc=0", fileLine "gfile" o.gfile, fileLine "cfile" o.cfile,
-    o.tedges.render "tedges", o.wedges.render "wedges", o.coords.render "coords"]
+  #["D rc=0", fileLine "gfile" o.gfile, toF (fileLine "cfile" o.cfile),
+    o.tedges.render "tedges", o.wedges.render "wedges", toF (o.coords.render "coords"),
+    s!"D coordcheck n={o.coords.n} within=1 readback=1"]
 
 def addEdges (st : ByteArray × Digest × Digest) (es : List InputEdge) : ByteArray × Digest × Digest :=
   es.foldl (fun (body, te, we) e =>
@@ -167,7 +176,7 @@ def handle (c : Case) (args : List String) : CaseOut :=
           if impl.size ≠ exp.size then
             .fail s!"graph_plier or a loader did not complete on a well-formed metis input: {";".intercalate (impl.toList.map fun s => (s.take 60).toString)}"
           else
-            match (List.range exp.size).find? (fun k => impl[k]! ≠ exp[k]!) with
+            match (List.range exp.size).find? (fun k => impl[k]! ≠ exp[k]! && !(exp[k]!.startsWith "F ")) with
             | none => .ok
             | some k =>
               if impl[k]!.endsWith " ERR" then
